@@ -222,10 +222,11 @@ Qed.
 
 (* ---------- soundness of shrink ---------- *)
 Section Sound.
+Variable anyb : bool.
 Variable sub : cls -> cls -> bool.
 Hypothesis sub_refl : forall c, sub c c = true.
 Variable k : nat.
-Notation mem := (member sub).
+Notation mem := (member anyb sub).
 
 Lemma field_ty_In s r o ft : field_ty s r o = Some ft -> In (s, ft) r \/ In (s, ft) o.
 Proof.
@@ -298,7 +299,7 @@ Proof.
       injection S as <-. cbn [existsb] in M. apply orb_prop in M. destruct M as [M|M]; [exact M|].
       apply existsb_exists in M. destruct M as [x [Hx Mx]].
       rewrite forallb_forall in AEQ. rewrite Forall_forall in W.
-      apply (py_eqb_member_imp sub x t0 v); auto.
+      apply (py_eqb_member_imp anyb sub x t0 v); auto.
       * apply W. right. exact Hx. * apply W. left. reflexivity.
     + destruct (forallb is_tlist (t0 :: rest)) eqn:AL.
       * (* ---- all lists ---- *)
